@@ -216,26 +216,52 @@ func TestC09(t *testing.T) {
 	})
 	rec.Exhaustive("decision-table")
 
-	// 2. commands the dictionary does not resolve: catch-all or error report
-	rec.Suite("unresolvable-command", 8, func(c *ev.Case) {
+	// 2. (application, code) pairs the dictionary does not resolve - an unknown
+	//    code, and codes that only a parent or another application defines -
+	//    with handlers registered under the names / indexes those codes have
+	//    elsewhere: only the catch-all may run, else an error report
+	unres := [][2]uint32{{0, 8388607}, {4, 265}, {16777238, 265}, {16777251, 265}, {16777251, 272}, {16777238, 316}, {3, 272}, {99, 265}}
+	rec.Suite("unresolvable-command", len(unres)*8*2, func(c *ev.Case) {
+		u := unres[c.I%len(unres)]
+		bits := (c.I / len(unres)) % 8
+		req := c.I/(len(unres)*8) == 0
+		if _, ok := ctx.Ix.FindCommand(u[0], u[1]); ok {
+			c.Fail(ev.Sig{"op": "harness-selfcheck"}, nil, nil, "(%d,%d) is resolvable by the reference", u[0], u[1])
+			return
+		}
 		mux := diam.NewServeMux()
 		f := &fired{}
-		if c.I&1 != 0 {
+		if bits&1 != 0 {
 			mux.Handle("ALL", f.handler(1))
 		}
-		if c.I&2 != 0 {
-			mux.Handle("CER", f.handler(2))
+		if bits&2 != 0 {
+			for _, n := range []string{"CER", "AAR", "AAA", "CCR", "CCA", "ULR", "ULA"} {
+				mux.Handle(n, f.handler(2))
+			}
 		}
-		if c.I&4 != 0 {
-			mux.HandleIdx(diam.CommandIndex{AppID: 0, Code: 257, Request: true}, f.handler(3))
+		if bits&4 != 0 {
+			mux.HandleIdx(diam.CommandIndex{AppID: 1, Code: 265, Request: req}, f.handler(3))
+			mux.HandleIdx(diam.CommandIndex{AppID: 4, Code: 272, Request: req}, f.handler(3))
+			mux.HandleIdx(diam.CommandIndex{AppID: 0, Code: 257, Request: req}, f.handler(3))
 		}
-		m := diam.NewMessage(8388607, diam.RequestFlag, 0, 1, 1, ctx.Parser)
-		mux.ServeDIAM(nil, m)
+		fl := uint8(0)
+		if req {
+			fl = diam.RequestFlag
+		}
+		m := diam.NewMessage(u[1], fl, u[0], 1, 1, ctx.Parser)
+		var p string
+		var bad bool
+		p, bad = guard(func() { mux.ServeDIAM(nil, m) })
 		got := f.take()
 		reports := drain(mux)
-		c.Class("unresolvable/all=%v", c.I&1 != 0)
-		if c.I&1 != 0 && (len(got) != 1 || got[0] != 1) || c.I&1 == 0 && (len(got) != 0 || reports != 1) {
-			c.Fail(ev.Sig{"op": "unresolvable-command"}, nil, nil, "command 8388607: handlers %v, %d error reports, catch-all registered=%v", got, reports, c.I&1 != 0)
+		c.Class("unresolvable/app=%d/code=%d/all=%v", u[0], u[1], bits&1 != 0)
+		if bad {
+			c.Fail(ev.Sig{"op": "panic"}, nil, nil, "ServeDIAM panicked: %s", p)
+			return
+		}
+		if bits&1 != 0 && (len(got) != 1 || got[0] != 1) || bits&1 == 0 && (len(got) != 0 || reports != 1) {
+			c.Fail(ev.Sig{"op": "unresolvable-command"}, nil, nil, "message {app %d code %d request %v}, which the dictionary does not define: handlers called %v (1 = catch-all, 2 = a name handler, 3 = an index handler), %d error reports; catch-all registered=%v", u[0], u[1], req, got, reports, bits&1 != 0)
+			return
 		}
 		c.Event("dispatches", 1)
 	})
